@@ -67,3 +67,26 @@ def fact_ld_size(s: Str, p: Int):
 def in_size_range(lo, hi, n):
     """X.680 size constraint lo..hi with open ends written None / 'MIN' / 'MAX'"""
     return (lo is None or lo == 'MIN' or lo <= n) and (hi is None or hi == 'MAX' or n <= hi)
+
+
+def nsn_size__facts(s, p, r):
+    return r >= 7
+
+
+def ld_val__facts(s, p, r):
+    return r >= 0
+
+
+@lemma
+def fact_ld_val(s: Str, p: Int):
+    nofacts("ld_val")
+    ensures(ld_val(s, p) >= 0)
+    fact_bits_val(s[p:p + 8])
+    fact_bits_val(s[p + 8:p + 16])
+
+
+@lemma
+def fact_nsn_size(s: Str, p: Int):
+    nofacts("nsn_size")
+    ensures(nsn_size(s, p) >= 7)
+    fact_ld_val(s, p + 1)
